@@ -210,6 +210,8 @@ func c20parent(env *core.Env) []core.CaseResult {
 		fired    int
 		fails    []string
 		crashed  bool
+		// harnessPanic: the panic came from the deviant's own code
+		harnessPanic bool
 	}
 	outs := make([]devOut, len(deviants))
 	var wg sync.WaitGroup
@@ -228,6 +230,23 @@ func c20parent(env *core.Env) []core.CaseResult {
 				}
 			}
 			if strings.Contains(r.output, "panic:") {
+				// a panic raised by the deviant's own code (its first frame below the panic machinery is in c20suite) is a
+				// defect of the harness, not a verdict of the suite
+				if i := strings.Index(r.output, "panic("); i >= 0 {
+					rest := r.output[i:]
+					if j := strings.Index(rest[1:], "\n"); j >= 0 {
+						lines := strings.Split(rest[j+2:], "\n")
+						for _, l := range lines {
+							if strings.HasPrefix(l, "\t") || strings.HasPrefix(l, "panic") || strings.HasPrefix(l, "runtime.") || strings.HasPrefix(l, "bytes.") || strings.HasPrefix(l, "strings.") {
+								continue
+							}
+							if strings.HasPrefix(l, "hpverif/c20suite.") {
+								o.harnessPanic = true
+							}
+							break
+						}
+					}
+				}
 				o.crashed = true // the suite itself crashed on the deviant: a reported failure, and the branch was certainly reached
 				if o.fired < 0 {
 					o.fired = 1
@@ -241,6 +260,8 @@ func c20parent(env *core.Env) []core.CaseResult {
 	for _, o := range outs {
 		res.Count("deviants_run", 1)
 		switch {
+		case o.harnessPanic:
+			res.Inconclusive = "the deviant " + o.name + " panicked in its own code (a defect of the catalogue, not a verdict of the suite)"
 		case o.fired <= 0:
 			unreached = append(unreached, o.name)
 			res.Count("deviants_unreached", 1)
